@@ -4,6 +4,8 @@ package main
 
 import (
 	"fmt"
+	"strconv"
+	"sync"
 	"go/types"
 	"strings"
 
@@ -148,7 +150,16 @@ func init() {
 // ---- lastcall("Name"): the (first) result of the most recent call, on the current path, to a function or method
 // with that short name.  Only names mentioned in the root contract are tracked.
 
+var lastCallTypes sync.Map // comp name -> types.Type
+
 func lastCallComp(name string) string { return "Own_last_" + sanitize(name) }
+
+func lastCallCompN(name string, i int) string {
+	if i == 0 {
+		return lastCallComp(name)
+	}
+	return fmt.Sprintf("Own_last_%s_r%d", sanitize(name), i)
+}
 
 func (f *Frame) noteLastCall(c *ssa.CallCommon, res []Val) {
 	if len(res) == 0 {
@@ -162,13 +173,18 @@ func (f *Frame) noteLastCall(c *ssa.CallCommon, res []Val) {
 	if !contractMentionsLastCall(rc, name) {
 		return
 	}
-	comp := lastCallComp(name)
-	f.vc.regComp(comp, res[0].S)
-	f.vc.set(f.cur, comp, res[0].T)
+	for i, r := range res {
+		comp := lastCallCompN(name, i)
+		f.vc.regComp(comp, r.S)
+		f.vc.set(f.cur, comp, r.T)
+		if sig := c.Signature(); i < sig.Results().Len() {
+			lastCallTypes.Store(comp, sig.Results().At(i).Type())
+		}
+	}
 }
 
 func contractMentionsLastCall(rc *FuncContract, name string) bool {
-	needle := "lastcall(\"" + name + "\")"
+	needle := "lastcall(\"" + name + "\""
 	for _, s := range rc.Sites {
 		if strings.Contains(s.Text, needle) {
 			return true
@@ -186,10 +202,18 @@ func contractMentionsLastCall(rc *FuncContract, name string) bool {
 
 func init() {
 	extCalls["lastcall"] = func(e *Env, x *Expr) (Bound, error) {
-		if len(x.Args) != 1 || x.Args[0].Op != "str" {
-			return Bound{}, fmt.Errorf("lastcall(\"Name\")")
+		if len(x.Args) < 1 || len(x.Args) > 2 || x.Args[0].Op != "str" {
+			return Bound{}, fmt.Errorf("lastcall(\"Name\"[, resultIndex])")
 		}
-		comp := lastCallComp(x.Args[0].Name)
+		ri := 0
+		if len(x.Args) == 2 {
+			n, err := strconv.Atoi(x.Args[1].Name)
+			if err != nil {
+				return Bound{}, fmt.Errorf("lastcall: result index must be a literal")
+			}
+			ri = n
+		}
+		comp := lastCallCompN(x.Args[0].Name, ri)
 		ci, ok := e.vc.comps[comp]
 		if !ok {
 			return Bound{}, fmt.Errorf("no call to %s has been executed before this point", x.Args[0].Name)
@@ -204,6 +228,9 @@ func init() {
 			t = types.Typ[types.Int]
 		case "Iface":
 			t = types.Universe.Lookup("error").Type()
+		}
+		if gt, ok := lastCallTypes.Load(comp); ok {
+			t = gt.(types.Type)
 		}
 		return Bound{V: Val{e.vc.get(e.state, comp), ci.sort}, T: t}, nil
 	}
@@ -236,9 +263,12 @@ func (f *Frame) initLastCalls() {
 			if sig.Results().Len() == 0 {
 				continue
 			}
-			comp := lastCallComp(name)
-			if _, ok := f.vc.comps[comp]; !ok {
-				f.vc.regComp(comp, f.vc.sortOf(sig.Results().At(0).Type()))
+			for i := 0; i < sig.Results().Len(); i++ {
+				comp := lastCallCompN(name, i)
+				if _, ok := f.vc.comps[comp]; !ok {
+					f.vc.regComp(comp, f.vc.sortOf(sig.Results().At(i).Type()))
+				}
+				lastCallTypes.Store(comp, sig.Results().At(i).Type())
 			}
 		}
 	}
